@@ -62,6 +62,12 @@ pub trait Env: Send + Sync + 'static {
     fn next_tid_override(&self) -> Option<u32> {
         None
     }
+    /// Asked at the top of every granted iteration: `true` shrinks the socket's in-flight table
+    /// to its current length (a node whose table is exactly full - the only state in which the
+    /// socket reclaims timed-out entries - which a history reaches only at particular counts).
+    fn shrink_inflight_table(&self) -> bool {
+        false
+    }
 }
 
 static ENV: OnceLock<Box<dyn Env>> = OnceLock::new();
@@ -266,6 +272,9 @@ pub fn actor_turn(actor: &Actor) -> bool {
 pub fn actor_prepare(actor: &mut Actor) {
     if let Some(tid) = env().next_tid_override() {
         actor.verif_set_next_tid(tid);
+    }
+    if env().shrink_inflight_table() {
+        actor.verif_shrink_inflight_table();
     }
 }
 
